@@ -1116,12 +1116,32 @@ func ruleR57(c *Ctx) {
 				id, ok := e.(*ast.Ident)
 				return ok && objOf(in, id) == types.Object(v)
 			}
+			overwritten := ""
 			found, w := g.SearchB(pt, false, func(pt Point, nd ast.Node) Action {
 				if nd == nil {
 					return Prune
 				}
 				if isAwait(nd) {
 					return Found
+				}
+				// the tested result must be the one the move returned: another assignment to the same variable
+				// on the way (e.g. the result of starting an additional flow) makes the test meaningless
+				if nd != ast.Node(as) {
+					re := false
+					inspectNoLit(nd, func(z ast.Node) bool {
+						if a2, ok := z.(*ast.AssignStmt); ok && a2.Tok == token.ASSIGN {
+							for _, l := range a2.Lhs {
+								if lid, ok := unparen(l).(*ast.Ident); ok && objOf(in, lid) == types.Object(v) {
+									re = true
+								}
+							}
+						}
+						return true
+					})
+					if re {
+						overwritten = p.Pos(nd.Pos())
+						return Found
+					}
 				}
 				return Continue
 			}, func(b *xcfg.Block) Action {
@@ -1150,8 +1170,13 @@ func ruleR57(c *Ctx) {
 				}
 				return Continue
 			})
-			c.Check(!found, f, as, "move of the token by "+mf.QName(), what,
-				ifElse(found, fmt.Sprintf("path from the move back to the wait for the next action on which %s may be false: lines %v", v.Name(), g.Lines(w)), "every path back to the wait for the next action lies behind a test that "+v.Name()+" is true"))
+			wit := "every path back to the wait for the next action lies behind a test that " + v.Name() + " is true"
+			if found && overwritten != "" {
+				wit = fmt.Sprintf("%s is assigned again at %s before it is tested: the test no longer speaks about the move (path lines %v)", v.Name(), overwritten, g.Lines(w))
+			} else if found {
+				wit = fmt.Sprintf("path from the move back to the wait for the next action on which %s may be false: lines %v", v.Name(), g.Lines(w))
+			}
+			c.Check(!found, f, as, "move of the token by "+mf.QName(), what, wit)
 			return true
 		})
 	}
